@@ -440,6 +440,8 @@ def run_case(case):
   def bad(check, **kw):
     return C.viol(check, dict(kw, backend=backend, family=fam, design=tag), shape=sig_shape, backend=backend)
 
+  if fam == "random":
+    stats["probes"].update(C.shape_probes(case["spec"]))
   seams.set_hash_stream(case["hash_seed"])
   make = build_instances(case)
   # 1. translate
